@@ -10,7 +10,7 @@ PROP = "C09"
 LEVEL = "fault_enumeration"
 RULE = ("histories of 2-8 copies onto the same destination with fresh content each time and backup mode drawn from {none, auto, "
         "numbered}, replayed step by step with a directory listing + content hashes after every step; names: plain, dotted, "
-        "prefix-related pairs (file / file2 / file.txt), names that look like backups (a.~1~), non-UTF-8 bytes (inside a copied "
+        "spellings of the destination (dst/name, ./dst/name, bare name with the destination directory as cwd, absolute, dir/../, through a symlinked directory), a destination name that starts out as a symlink to a file elsewhere, prefix-related pairs (file / file2 / file.txt), names that look like backups (a.~1~), non-UTF-8 bytes (inside a copied "
         "directory), pre-seeded backup sets with gaps and numbers up to 2^62; single-file and directory copies; both drivers. "
         "Model per step and name (byte-exact <name>.~N~ parsing): numbered => old content is intact under <name>.~N~ with N greater "
         "than every number present before; auto => exactly when a backup of that exact name existed; no existing backup changes. "
@@ -77,8 +77,18 @@ def gen_cases(tier, seed):
         for s in range(r.randint(2, 8 if tier == "thorough" else 5)):
             steps.append({"mode": r.choice(["none", "auto", "numbered", "numbered"]),
                           "files": {nm: {"size": r.choice([0, 1, 100, 70000]), "seed": r.randrange(1, 1 << 30)} for nm in names if r.random() < 0.85 or nm == names[0]}})
+        # how a single-file destination is spelled: also without any directory part (cwd is the destination's directory),
+        # through a symlinked directory, absolute; and the destination name may at first be a symlink to a file elsewhere
+        spell = r.choice(["plain", "plain", "dot", "cwd", "cwd", "abs", "dotdot", "dirlink"]) if not dircopy and len(names) == 1 else "plain"
+        linkdest = not dircopy and len(names) == 1 and ncls != "backup-lookalike" and r.random() < 0.2
+        if linkdest:
+            pre = [e for e in pre if e["p"] != base + "/" + names[0]]
+            pre += [{"p": "elsewhere", "k": "d"}, {"p": "elsewhere/" + names[0], "k": "f", "size": 4321, "seed": r.randrange(1, 1 << 30), "segs": None},
+                    {"p": base + "/" + names[0], "k": "l", "target": "../elsewhere/" + names[0]}]
+        if spell == "dirlink":
+            pre.append({"p": "dlink", "k": "l", "target": "dst"})
         yield {"kind": "history", "driver": driver, "names": names, "ncls": ncls, "dircopy": dircopy, "bset": bset, "pre": pre, "steps": steps, "fs": "ext4",
-               "workers": r.choice([0, 1, 2, 4])}
+               "workers": r.choice([0, 1, 2, 4]), "spell": spell, "linkdest": linkdest}
     # kill-point enumeration of one overwrite step per (driver, mode)
     for driver in ("parfile", "parblock"):
         for mode in ("numbered", "auto"):
@@ -97,7 +107,18 @@ def step_args(case, mode, workers=2):
     a = ["--driver", case["driver"], "-w", str(workers), "--block-size", "32KB", "--backup", mode]
     if case["dircopy"]:
         return a + ["-r", "src", "dst"]
-    return a + ["src/" + case["names"][0], "dst/" + case["names"][0]] if len(case["names"]) == 1 else a + ["src/" + n for n in case["names"]] + ["dst"]
+    if len(case["names"]) != 1:
+        return a + ["src/" + n for n in case["names"]] + ["dst"]
+    nm = case["names"][0]
+    sp = case.get("spell", "plain")
+    if sp == "cwd":
+        return a + ["../src/" + nm, nm]          # run with the destination directory as cwd (see step_cwd)
+    d = {"plain": "dst/", "dot": "./dst/", "abs": "@ROOT@/dst/", "dotdot": "src/../dst/", "dirlink": "dlink/"}[sp]
+    return a + ["src/" + nm, d + nm]
+
+
+def step_cwd(case, root):
+    return os.path.join(root, "dst") if case.get("spell") == "cwd" and not case["dircopy"] and len(case["names"]) == 1 else root
 
 
 def write_sources(root, files):
@@ -194,12 +215,25 @@ def run_history(case, res):
         for si, st in enumerate(case["steps"]):
             write_sources(root, st["files"])
             before = listing(root, ddir)
-            run = core.run_plain(core.xcp_argv(step_args(case, st["mode"], case["workers"])), root)
+            else_before = listing(root, "elsewhere") if case.get("linkdest") else {}
+            run = core.run_plain(core.xcp_argv([a.replace("@ROOT@", root) for a in step_args(case, st["mode"], case["workers"])]), step_cwd(case, root))
             if run.verdict != "exited":
                 res["inconc"].append("run-" + run.verdict)
                 return
             after = listing(root, ddir)
-            tag = "step %d/%d (%s, %s copy, names %s)" % (si + 1, len(case["steps"]), case["driver"], "dir" if case["dircopy"] else "file", case["names"])
+            tag = "step %d/%d (%s, %s copy, names %s, spelled %s)" % (si + 1, len(case["steps"]), case["driver"], "dir" if case["dircopy"] else "file", case["names"], case.get("spell", "plain"))
+            if case.get("linkdest"):
+                # the destination name was a link to a file elsewhere: when a backup is due the link is what gets preserved, and the file it
+                # points to keeps the old content; in every mode nothing else over there may change
+                nb0 = b(case["names"][0])
+                was_link = before.get(nb0, {}).get("k") == "l"
+                due = st["mode"] == "numbered" or (st["mode"] == "auto" and backups_of(before, nb0))
+                for en, a_ in else_before.items():
+                    c_ = listing(root, "elsewhere").get(en)
+                    if (c_ is None or c_.get("sha") != a_.get("sha")) and (due or not was_link or en != nb0):
+                        res["viol"].append({"sig": "%s:%s:%s:linked-old-content-lost" % (case["driver"], case["ncls"], st["mode"]),
+                                            "what": "%s: the destination was a link to elsewhere/%s and a backup was due (mode %s, backups before %s), but that file's old content is gone"
+                                                    % (tag, u(en), st["mode"], sorted(backups_of(before, nb0)))})
             if not run.exit0:
                 # a failing step must still not lose anything
                 check_step(case, before, after, st["mode"], {}, tag + " [failed run]", res)
@@ -209,10 +243,12 @@ def run_history(case, res):
             # the copy itself
             for nm, f in st["files"].items():
                 rec = after.get(b(nm))
+                if rec is not None and rec["k"] == "l" and case.get("linkdest"):
+                    rec = listing(root, "elsewhere").get(b(nm))     # no backup was due: the copy went through the link
                 if rec is None or rec["size"] != f["size"]:
                     res["viol"].append({"sig": "%s:%s:copy-missing" % (case["driver"], case["ncls"]), "what": "%s: %r not copied" % (tag, nm)})
             nsteps += 1
-            res["evals"].append({"key": [case["driver"], case["ncls"], st["mode"], case["bset"], case["dircopy"], min(si, 4)]})
+            res["evals"].append({"key": [case["driver"], case["ncls"], st["mode"], case["bset"], case["dircopy"], min(si, 4), case.get("spell", "plain"), bool(case.get("linkdest")) and si == 0]})
         res["counters"]["history-steps"] = nsteps
         if res["evals"]:
             res["evals"][0]["sample"] = {"driver": case["driver"], "names": case["names"], "pre_backups": case["bset"], "dircopy": case["dircopy"],
